@@ -877,6 +877,8 @@ impl ContinuityStore {
         let workspace = workspace_key(&self.workspace_root);
         // Hold the seq lock from the creation frame to the lineage frame: a client that learns the
         // new thread id from the broadcast or the index must not be able to take seq 1 in between.
+        #[cfg(rip_verif)]
+        rip_kernel::verif::point("store.lock");
         let mut next_seq = self.next_seq.lock().expect("continuity seq mutex");
         let thread_id = self.create_continuity(&mut next_seq, workspace, None, title, false)?;
 
@@ -1003,6 +1005,8 @@ impl ContinuityStore {
         let workspace = workspace_key(&self.workspace_root);
         // Hold the seq lock from the creation frame to the lineage frame: a client that learns the
         // new thread id from the broadcast or the index must not be able to take seq 1 in between.
+        #[cfg(rip_verif)]
+        rip_kernel::verif::point("store.lock");
         let mut next_seq = self.next_seq.lock().expect("continuity seq mutex");
         let thread_id = self.create_continuity(&mut next_seq, workspace, None, title, false)?;
 
